@@ -122,7 +122,8 @@ class C12:
             "fresh solo instances - on a key change the new branch starts with initial state, is evaluated in that cycle on the current value of the "
             "held input, and from then on the output is that branch's solo stream; the previous branch's user code never runs again and its pending "
             "timers never surface; re-selecting an earlier key gives a new child graph instance; an unmatched key without default makes run() throw. "
-            "non-trivial = >= 2 key changes and >= 3 output ticks; distinct = distinct (cases, histories)")
+            "non-trivial = >= 2 key changes and >= 3 output ticks; distinct = distinct (cases, histories)"
+            " Round 3: 15% of the runs switch over a set-valued held input with delta-driven branches (running sum of added minus removed): a fresh branch sees the whole current set as its first delta, also when the set ticks in the flip cycle.")
     assumptions = ["branch solo streams come from the Python models of the library functions (sim/ho.py FnModel)"]
 
     def gen(self, seed):
